@@ -30,7 +30,8 @@ IMPORTS = ('From Coq Require Import List ZArith QArith String.\n'
 
 
 def _run(args):
-    seq, nbins, bmin, bmax, flatchk, crit, m, sign, seed, outdir = args
+    seq, nbins, bmin, bmax, flatchk, crit, m, sign, seed, outdir = args[:10]
+    tmo = args[10] if len(args) > 10 else 300
     import numpy as np
     import localcider.backend.sequence as S
     import localcider.backend.wang_landau as W
@@ -50,7 +51,7 @@ def _run(args):
         cfg = {'nb_target': mach.nbins_target, 'nb_actual': int(mach.nbins_actual), 'rmin': int(mach.relevant_min),
                'rmax': int(mach.relevant_max), 'nflat': mach.nflatchk, 'crit': mach.flatcrit, 'conv': conv}
         return cfg, trace, [[float(x) for x in row] for row in ret], logs, tape.log
-    st, v = call(f, seconds=60 if 'wlt' in os.path.basename(outdir) else 300)
+    st, v = call(f, seconds=min(60, tmo) if 'wlt' in os.path.basename(outdir) else tmo)
     shutil.rmtree(outdir, ignore_errors=True)
     return st, v
 
@@ -186,6 +187,11 @@ def build(ctx):
     # one long first iteration: ln(DOS) of a bin passes 710, where exp() of it overflows a double (the rule itself only
     # needs exp of the DIFFERENCE)
     jobs.append(('EKEKAAKKEE', 2, 0.0, 1.0, 2000, rng.choice([0.1, 0.2]), 1, 1, rng.randrange(10 ** 9), os.path.join(ctx.work, 'wll0')))
+    # a requested width that does not divide 1: the partition of [0,1] is then round(1/width) equal bins, not the requested ones
+    jobs.append(('EEEEKKKKGGGG', 3, 0.0, 0.9, rng.choice([50, 100]), 0.2, 1, 1, rng.randrange(10 ** 9), os.path.join(ctx.work, 'wlw0')))
+    jobs.append(('EKEKGGEKEKSSDR', 3, 0.1, 0.8, rng.choice([50, 100]), 0.1, 1, -1, rng.randrange(10 ** 9), os.path.join(ctx.work, 'wlw1')))
+    tmo = ctx.pick(90, 300)       # a run that has not converged by then is skipped (counted in notes.timeouts), not failed
+    jobs = [j + (tmo,) for j in jobs]
     res = pmap(_run, jobs, chunk=1)
     cases = []
     ctx.direct_failures = []
